@@ -71,6 +71,15 @@ def gfa_text(g, gfa_order):
     first, then the S lines in reverse order"""
     if gfa_order == "so":
         return g.text()
+    if gfa_order == "noseq":
+        # the graph without sequences ('*' in column 3, lengths in LN), as order_gfa writes it without --with-sequence
+        out = []
+        for l in g.text().split("\n"):
+            f = l.split("\t")
+            if f[0] == "S":
+                f[2] = "*"
+            out.append("\t".join(f))
+        return "\n".join(out)
     return "".join(l.line() + "\n" for l in g.links) + "".join(x.line() + "\n" for x in reversed(list(g.segs.values())))
 
 
@@ -110,6 +119,14 @@ def check_index(res, g, L, lm, stable, recs, variant, scratch, tag="x", gfa_orde
         keys[k[0]] = k
     alloff = sorted({o for k in keys.values() for o in ind[k]})
     resolved = vi.resolve_offsets(gaf_path, alloff)
+    # the same offsets through the library's own random access, on a reader that has already been iterated a little (as a
+    # consumer does that first looks at the head of the file)
+    api = vi.resolve_offsets_api(gaf_path, alloff)
+    for o in alloff:
+        a, b = resolved[o], api[o]
+        if not isinstance(a, str) and b != a.qname.split(" ")[0]:
+            res.fail("C03/read_line-differs", f"[{L.name}, {variant[0]}] offset {o} is the start of record {a.qname!r}, GAF.read_line({o}) on a reader that was iterated before gives {b!r}", case)
+            break
     for node in g.segs:
         want = {r.qname for r in recs if vi.traverses(g, r, node)}
         got = set()
@@ -141,6 +158,8 @@ def check_index(res, g, L, lm, stable, recs, variant, scratch, tag="x", gfa_orde
 
 def record_sets(g, L, maxlen):
     urecs = [r for r, st in vi.walk_records(g, L, maxlen)]
+    # every fifth read name carries its FASTQ description after a blank (GraphAligner / ONT style)
+    urecs = [rgfa.Rec(r.qname + " runid=ab12 ch=7", *r.cols()[1:], opt=list(r.opt)) if i % 5 == 3 else r for i, r in enumerate(urecs)]
     srecs = [rgfa.to_stable_model(g, r) for r in urecs]
     return urecs, srecs
 
@@ -176,6 +195,7 @@ def run_shard(spec, tier, scratch):
             check_index(res, g, L, lm, stable, recs[1:] + recs[:1], ("plain",), scratch, "all", older_than_index=True)
             res.count("reindexed_after_replacement_by_an_older_file")
         check_index(res, g, L, lm, stable, recs, ("pysam",), scratch, "allgz", gfa_order="rev")
+        check_index(res, g, L, lm, stable, recs, ("plain",), scratch, "noseq", gfa_order="noseq")
         if not stable and L.scale == 1:
             # the very same GAF file (not rewritten) re-indexed against another graph with the same segment names but
             # other intervals: the index left by the first run must not survive
